@@ -570,7 +570,10 @@ func universeRequests(thorough bool, salt int) []fsReq {
 			rs = append(rs, fsReq{method: "PUT", path: p, body: "hello", fault: -1, cancelAt: at + 1})
 		}
 		rs = append(rs, fsReq{method: "PUT", path: p, body: "new", ifnm: 's', fault: -1, cancelAt: 1}, fsReq{method: "PUT", path: p, body: "new", ifm: 'c', fault: -1, cancelAt: 1},
-			fsReq{method: "DELETE", path: p, fault: -1, cancelAt: 1}, fsReq{method: "MKCOL", path: p, fault: -1, cancelAt: 1})
+			fsReq{method: "DELETE", path: p, fault: -1, cancelAt: 1}, fsReq{method: "MKCOL", path: p, fault: -1, cancelAt: 1},
+			// the client is gone before a COPY / MOVE onto an existing or a new destination
+			fsReq{method: "COPY", path: p, dest: sp("/b"), fault: -1, cancelAt: 1}, fsReq{method: "COPY", path: p, dest: sp("/c"), fault: -1, cancelAt: 1},
+			fsReq{method: "MOVE", path: p, dest: sp("/b"), fault: -1, cancelAt: 1}, fsReq{method: "COPY", path: p, dest: sp("/a/a"), depth: "0", fault: -1, cancelAt: 1})
 		for _, ct := range []string{"", "application/xml", "text/plain"} {
 			rs = append(rs, fsReq{method: "MKCOL", path: p, ctype: ct, fault: -1})
 		}
